@@ -252,6 +252,8 @@ def check(ctx):
         ctx.inst('R6', w_, 'api-forwards-arguments-in-order', okw, 'Crazyflie.%s%s forwards to the dispatcher\'s %s%s with %s' %
                  (wn, tuple(w_.params[1:]), wn, tuple(tgt.params[1:]), [norm(a_) for c in fw for a_ in c.args]))
     from .c08 import received_header_rules
+    from .c08 import packet_contract_rules
+    packet_contract_rules(ctx, 'R8', size=False)      # ... for every one of the 256 header bytes alike (shared with C08.R4)
     received_header_rules(ctx, 'R8')      # pk.port / pk.channel of a received packet are header bits 7..4 / 1..0 (shared with C08.R4)
 
 
